@@ -127,6 +127,8 @@ impl DispatchFunc {
             }
         }
 
+        let nargs = self.args.iter().filter(|a| !a.is_this()).count();
+
         Arm {
             attrs,
             pat: Pat::Tuple(PatTuple {
@@ -134,7 +136,12 @@ impl DispatchFunc {
                 paren_token: token::Paren::default(),
                 elems: elems.into_iter().collect(),
             }),
-            guard: None,
+            // an overload only answers calls with exactly its own number of arguments:
+            // the Null padding must not stand in for (or absorb) an argument
+            guard: Some((
+                token::If::default(),
+                Box::new(syn::parse_quote! { argc == #nargs }),
+            )),
             fat_arrow_token: token::FatArrow::default(),
             body: Box::new(syn::Expr::MethodCall(syn::ExprMethodCall {
                 attrs: Vec::new(),
